@@ -77,6 +77,9 @@ package document
 //@ ensures old(d.contentTypes) != nil ==> len(d.contentTypes.Defaults) >= old(len(d.contentTypes.Defaults)) && len(d.contentTypes.Defaults) <= old(len(d.contentTypes.Defaults)) + 1
 //@ ensures old(d.contentTypes) != nil ==> forall j int :: 0 <= j && j < old(len(d.contentTypes.Defaults)) ==> d.contentTypes.Defaults[j] == old(d.contentTypes.Defaults[j])
 //@ ensures old(d.contentTypes) != nil && len(d.contentTypes.Defaults) == old(len(d.contentTypes.Defaults)) + 1 ==> d.contentTypes.Defaults[old(len(d.contentTypes.Defaults))].Extension == ctExt(format) && d.contentTypes.Defaults[old(len(d.contentTypes.Defaults))].ContentType == "image/" + ctExt(format) && !old(ctHasDefault(d.contentTypes.Defaults, ctExt(format)))
+// (C01, "every part has a content type") registered defaults are never lost: an extension that had a default still has one - in
+// particular "xml" and "rels", which New() registers (initializeStructure) and which cover every *.xml / *.rels part the library names
+//@ ensures old(d.contentTypes) != nil ==> forall e string :: old(ctHasDefault(d.contentTypes.Defaults, e)) ==> ctHasDefault(d.contentTypes.Defaults, e)
 //@ modifies Document.contentTypes, ContentTypes.Defaults, []Default
 //@ loop 1
 //@   invariant 0 <= #i && #i <= len(d.contentTypes.Defaults) && unchangedExcept("Document.contentTypes") && d.contentTypes != nil
@@ -154,6 +157,11 @@ package document
 //@ ensures d.documentRelationships.Relationships[old(len(d.documentRelationships.Relationships))].Target == "media/" + imgFile(old(d.nextImageID), fmtExt(format))
 //@ ensures knownFmt(format) ==> ctHasDefault(d.contentTypes.Defaults, ctExt(format))
 //@ ensures result0.ID == itoa(old(d.nextImageID)) && result0.Format == format && result0.Width == width && result0.Height == height && result0.Data == imageData && result0.Config == config
+// (C02, package-wide invariant docRelsResolve - zz_contracts_verif_pkg.go) every internal relationship of the list still names a part
+// that is present: the new entry's target is the new part's name relative to word/, earlier entries and parts stay
+//@ ensures old(docRelsResolve(d)) ==> docRelsResolve(d)
+// (C01) registered content-type defaults are never lost ("xml" and "rels" of New() in particular)
+//@ ensures forall e string :: old(ctHasDefault(d.contentTypes.Defaults, e)) ==> ctHasDefault(d.contentTypes.Defaults, e)
 //@ modifies Document.nextImageID, map:string:[]byte, Relationships.Relationships, []Relationship, Document.contentTypes, ContentTypes.Defaults, []Default
 
 // AddImageFromData (body path, also the data path of AddImageFromFile): the same allocation (pairwise different ids stay
@@ -184,6 +192,9 @@ package document
 //@ ensures forall j int :: 0 <= j && j < old(len(d.Body.Elements)) ==> d.Body.Elements[j] == old(d.Body.Elements[j])
 //@ ensures typeIs(d.Body.Elements[old(len(d.Body.Elements))], "*Paragraph") && fresh(d.Body.Elements[old(len(d.Body.Elements))].(*Paragraph)) && len(d.Body.Elements[old(len(d.Body.Elements))].(*Paragraph).Runs) == 1
 //@ ensures exists w int, h int :: {itoa(w), itoa(h)} sizeRule(result0, w, h) && drawingIs(d.Body.Elements[old(len(d.Body.Elements))].(*Paragraph).Runs[0].Drawing, result0.RelationID, result0.ID, itoa(w), itoa(h))
+// (C02, package-wide invariant docRelsResolve - zz_contracts_verif_pkg.go) no dangling relationship is ever added: every internal
+// relationship of the document list still names a part that is present
+//@ ensures old(docRelsResolve(d)) ==> docRelsResolve(d)
 //@ modifies Document.nextImageID, map:string:[]byte, Relationships.Relationships, []Relationship, Document.contentTypes, ContentTypes.Defaults, []Default, Body.Elements, cell:any
 
 // AddImageFromFile: reading and decoding are external calls (os.ReadFile, image/{png,jpeg,gif}.Decode: results
@@ -204,6 +215,9 @@ package document
 //@ ensures err == nil ==> d.Body == old(d.Body) && len(d.Body.Elements) == old(len(d.Body.Elements)) + 1 && typeIs(d.Body.Elements[old(len(d.Body.Elements))], "*Paragraph") && fresh(d.Body.Elements[old(len(d.Body.Elements))].(*Paragraph)) && len(d.Body.Elements[old(len(d.Body.Elements))].(*Paragraph).Runs) == 1
 //@ ensures err == nil ==> forall j int :: 0 <= j && j < old(len(d.Body.Elements)) ==> d.Body.Elements[j] == old(d.Body.Elements[j])
 //@ ensures err == nil ==> exists w int, h int :: {itoa(w), itoa(h)} sizeRule(result0, w, h) && drawingIs(d.Body.Elements[old(len(d.Body.Elements))].(*Paragraph).Runs[0].Drawing, result0.RelationID, result0.ID, itoa(w), itoa(h))
+// (C02, package-wide invariant docRelsResolve - zz_contracts_verif_pkg.go) no dangling relationship is ever added: every internal
+// relationship of the document list still names a part that is present
+//@ ensures old(docRelsResolve(d)) ==> docRelsResolve(d)
 //@ modifies Document.nextImageID, map:string:[]byte, Relationships.Relationships, []Relationship, Document.contentTypes, ContentTypes.Defaults, []Default, Body.Elements, cell:any
 
 // AddCellImage (table-cell path; AddCellImageFromFile/FromData are one-line wrappers): the same allocator; with
@@ -227,6 +241,9 @@ package document
 //@ ensures err == nil ==> len(table.Rows[row].Cells[col].Paragraphs) == old(len(table.Rows[row].Cells[col].Paragraphs)) + 1 && len(table.Rows[row].Cells[col].Paragraphs[old(len(table.Rows[row].Cells[col].Paragraphs))].Runs) == 1
 //@ ensures err == nil ==> forall j int :: 0 <= j && j < old(len(table.Rows[row].Cells[col].Paragraphs)) ==> table.Rows[row].Cells[col].Paragraphs[j] == old(table.Rows[row].Cells[col].Paragraphs[j])
 //@ ensures err == nil ==> exists w int, h int :: {itoa(w), itoa(h)} sizeRule(result0, w, h) && drawingIs(table.Rows[row].Cells[col].Paragraphs[old(len(table.Rows[row].Cells[col].Paragraphs))].Runs[0].Drawing, result0.RelationID, result0.ID, itoa(w), itoa(h))
+// (C02, package-wide invariant docRelsResolve - zz_contracts_verif_pkg.go) no dangling relationship is ever added: every internal
+// relationship of the document list still names a part that is present
+//@ ensures old(docRelsResolve(d)) ==> docRelsResolve(d)
 //@ modifies Document.nextImageID, map:string:[]byte, Relationships.Relationships, []Relationship, Document.contentTypes, ContentTypes.Defaults, []Default, TableCell.Paragraphs, Paragraph.*
 
 // The description setters used by the template path only touch the picture's own configuration object (created on
